@@ -66,7 +66,7 @@ func libEffects(x *ssa.Call) ([]string, bool) {
 		return nil, false
 	case "encoding/binary.Write":
 		if mi, ok := x.Call.Args[0].(*ssa.MakeInterface); ok && mi.X.Type().String() == "*bytes.Buffer" {
-			return nil, true
+			return []string{"G:blen"}, true
 		}
 		return nil, false
 	case "(*bytes.Buffer).Bytes", "(*bytes.Buffer).Len", "(*bytes.Buffer).String", "sort.Search":
@@ -188,7 +188,16 @@ func (f *FuncVC) libCall(st *State, x *ssa.Call, args []*Val) (*Val, bool) {
 		// assumed: serialises into the writer argument; when that writer is a
 		// *bytes.Buffer created locally nothing visible to our heaps changes
 		if mi, ok := x.Call.Args[0].(*ssa.MakeInterface); ok && mi.X.Type().String() == "*bytes.Buffer" {
-			f.usedAssumed[name+" into a *bytes.Buffer: no effect on modelled state, result error unconstrained"] = true
+			f.usedAssumed[name+" into a *bytes.Buffer: appends binary.Size(data) bytes for fixed-size data (content not modelled), no other effect"] = true
+			// length accounting for fixed-size data (pointer to struct of fixed-size fields)
+			if di, ok := x.Call.Args[2].(*ssa.MakeInterface); ok {
+				if sz, ok := binarySize(di.X.Type()); ok {
+					bv := f.val(st, mi.X)
+					hs := "(Array Int Int)"
+					h := f.heap(st, "G:blen", hs)
+					f.setHeap(st, "G:blen", hs, store(h, bv.T, arith("+", sel(h, bv.T), num(sz))))
+				}
+			}
 			return f.freshTyped(st, resTy, "binwrite"), true
 		}
 	}
@@ -224,4 +233,37 @@ func (f *FuncVC) libCall(st *State, x *ssa.Call, args []*Val) (*Val, bool) {
 		return r, true
 	}
 	return nil, false
+}
+
+// binarySize mirrors encoding/binary.Size for fixed-size data.
+func binarySize(t types.Type) (int64, bool) {
+	switch u := t.Underlying().(type) {
+	case *types.Pointer:
+		return binarySize(u.Elem())
+	case *types.Basic:
+		switch u.Kind() {
+		case types.Int8, types.Uint8, types.Bool:
+			return 1, true
+		case types.Int16, types.Uint16:
+			return 2, true
+		case types.Int32, types.Uint32, types.Float32:
+			return 4, true
+		case types.Int64, types.Uint64, types.Float64:
+			return 8, true
+		}
+	case *types.Array:
+		n, ok := binarySize(u.Elem())
+		return n * u.Len(), ok
+	case *types.Struct:
+		var total int64
+		for i := 0; i < u.NumFields(); i++ {
+			n, ok := binarySize(u.Field(i).Type())
+			if !ok {
+				return 0, false
+			}
+			total += n
+		}
+		return total, true
+	}
+	return 0, false
 }
